@@ -16,7 +16,7 @@ from .common import SCtx, sctx, fnctx, is_self_call
 from .toposort_rules import check_toposort
 
 PROP = "C01"
-FLOORS = {"C01.R1": 8, "C01.R2": 5, "C01.R3": 8, "C01.R4": 2, "C01.R5": 7, "C01.R6": 1, "C01.R7": 4}
+FLOORS = {"C01.R1": 7, "C01.R2": 5, "C01.R3": 8, "C01.R4": 2, "C01.R5": 7, "C01.R6": 1, "C01.R7": 4}
 META = {
     "explanation": "Static discharge of the update protocol behind C01: on the control-flow graph of Manager.set_value "
                    "(after inlining of helpers) every path unregisters an existing definition, registers the new ExprTask, "
@@ -53,7 +53,7 @@ def _write_events(s: SCtx, ref, value):
     return W
 
 
-def _set_value_protocol(col: Collector, rule="C01.R1", only=None):
+def _set_value_protocol(col: Collector, rule="C01.R1", only=None, order_rule=None):
     s = set_value_ctx(col)
     cfg = s.cfg
     ref, value = s.P(0), s.P(1)
@@ -115,7 +115,8 @@ def _set_value_protocol(col: Collector, rule="C01.R1", only=None):
     # (e) graph changes precede the write
     late = [x for x in Un + Rn if any(cfg.path_avoiding(w, x, []) for w in Wn)]
     early = [w for w in Wn if any(cfg.path_avoiding(w, x, []) for x in Un + Rn)]
-    col.add(rule, f"{q}#graph-changes-precede-write", not late, s.loc(early[0]) if early else s.loc(Wn[0]),
+    if order_rule is not None:
+      col.add(order_rule, f"{q}#graph-changes-precede-write", not late, s.loc(early[0]) if early else s.loc(Wn[0]),
             "unregister/register (which may refuse) happen before the container is written",
             f"reachable after the write: {[s.loc(x) for x in late]}")
     # (f) expression branch
@@ -214,20 +215,28 @@ def _trigger_closure(col: Collector, rule="C01.R2"):
     if not rets:
         raise AnalysisError(f"{q}: no return")
     for r in rets:
-        v = r.value
-        ok, facts = False, S.show(v)
-        m = S.match(v, ("acc", "list", (("one", S.V("g"), ("sub", S.sattr("tasks"), ("elem", S.V("ids")))),)))
-        if m is None:
-            m = S.match(v, S.fcall("list", ("acc", "gen", (("one", S.V("g"), ("sub", S.sattr("tasks"), ("elem", S.V("ids")))),))))
-        if m is not None:
+        ok, facts = True, S.show(r.value)
+        recognised = 0
+        for v in S.alts(r.value):
+            m = S.match(v, ("acc", "list", (("one", S.V("g"), ("sub", S.sattr("tasks"), ("elem", S.V("ids")))),)))
+            if m is None:
+                m = S.match(v, S.fcall("list", ("acc", "gen", (("one", S.V("g"), ("sub", S.sattr("tasks"), ("elem", S.V("ids")))),))))
+            if m is None:
+                ok = False
+                if v[:1] in (("acc",), ("call",), ("param",), ("attr",), ("sub",), ("list",), ("set",)):
+                    recognised += 1
+                    facts = f"a path returns {S.show(v)}"
+                continue
+            recognised += 1
             mi = S.match(m["ids"], S.mcall(S.SELF, "find_taskids", S.V("start")))
             if mi is not None and m["g"] == ():
-                ok = True
                 _start_param_ok(col, rule, s, q, mi["start"], "start-passed-through", s.loc(r))
             elif m["g"] != ():
-                facts = f"filtered by {[S.show(c) for _, c in m['g']]}"
-        elif not any(v[:1] == (k,) for k in (("acc",), ("call",))):
-            raise AnalysisError(f"{q}: unrecognised return value {S.show(v)} -- cannot decide")
+                ok, facts = False, f"filtered by {[S.show(c) for _, c in m['g']]}"
+            else:
+                ok, facts = False, f"maps {S.show(m['ids'])}"
+        if not recognised:
+            raise AnalysisError(f"{q}: unrecognised return value {S.show(r.value)} -- cannot decide")
         col.add(rule, f"{q}#order-preserving-map", ok, s.loc(r),
                 "find_tasks maps find_taskids(start) through self.tasks with an order-preserving construct, dropping nothing", facts)
 
